@@ -463,6 +463,12 @@ def r4_local_atomic(ctx):
                         done = cfg.nodes_of(wst, 'ok')
                         if how.startswith('open') and not isinstance(wst, (ast.With, ast.AsyncWith)):
                             done = [n for w in walk_local(fi.node) if isinstance(w, (ast.With, ast.AsyncWith)) and w.lineno >= wst.lineno for n in cfg.nodes_of(w, 'with_exit') if n.label == 'normal'] or []
+                            # or an explicit close of the opened handle (try/finally: handle.close())
+                            if isinstance(wst, ast.Assign) and len(wst.targets) == 1 and isinstance(wst.targets[0], ast.Name):
+                                hname = wst.targets[0].id
+                                for c_ in calls_in(fi.node):
+                                    if isinstance(c_.func, ast.Attribute) and c_.func.attr == 'close' and isinstance(c_.func.value, ast.Name) and c_.func.value.id == hname and not c_.args:
+                                        done += cfg.nodes_of(enclosing_stmt(c_), 'ok') or cfg.nodes_of(enclosing_stmt(c_), 'stmt')
                     good = all(cfg.set_dominates(done, r) for r in cfg.nodes_of(rst, 'stmt')) and bool(done)
                     ctx.check(
                         good,
@@ -536,9 +542,14 @@ def r5_temp_invisible(ctx):
                     if suffix not in vals:
                         continue
                     # exclusion = the branch that does not reach the yield
-                    fnodes = cfg.nodes_of(ifn, 'false')
-                    tnodes = cfg.nodes_of(ifn, 'true')
-                    negated = False
+                    # the edge on which the path does NOT end with the suffix: false edge of `if p.endswith(s)`, true edge of `if not p.endswith(s)`
+                    tst = ifn.test
+                    if tst is call:
+                        fnodes = cfg.nodes_of(ifn, 'false')
+                    elif isinstance(tst, ast.UnaryOp) and isinstance(tst.op, ast.Not) and tst.operand is call:
+                        fnodes = cfg.nodes_of(ifn, 'true')
+                    else:
+                        continue
                     ynodes = cfg.nodes_of(yst, 'stmt')
                     if all(cfg.set_dominates(fnodes, yn) for yn in ynodes) and fnodes:
                         # tested value must be the yielded value
